@@ -129,9 +129,26 @@ def rand_rect_in(pl, pc, kind=None):
     return [t, l, n, k]
 
 
+def expose_instr(h, w):
+    """tickit_window_expose from inside a handler: own window (overlapping / contained / adjacent to the handed
+    rectangle) or any other live window."""
+    stats["handler_exposes"] = stats.get("handler_exposes", 0) + 1
+    x = rng.random()
+    if x < 0.5:
+        return "z:%d:%d:%d:%d" % (rng.choice([-1, 0, 0, 1, 2]), rng.choice([-2, 0, 0, 1, 3]), rng.choice([-1, 0, 0, 1]), rng.choice([-2, 0, 0, 1]))
+    live = h.live()
+    tgt = rng.choice(live) if live else w
+    if x < 0.7:
+        return "Z:%d" % tgt
+    n, k = h.rect.get(tgt, [0, 0, 1, 1])[2:]
+    return "Z:%d:%d:%d:%d:%d" % (tgt, rng.randint(-1, max(0, n)), rng.randint(-1, max(0, k)), rng.randint(1, max(1, n)), rng.randint(1, max(1, k)))
+
+
 def adversarial_prog(h, w):
     n, k = h.rect[w][2], h.rect[w][3]
     ins = []
+    if rng.random() < 0.15:
+        ins.append(expose_instr(h, w))
     for _ in range(rng.randint(1, 5)):
         x = rng.random()
         far = lambda: rng.choice([-1000, -7, -2, -1, 0, 1, 2, n - 1, n, n + 1, k - 1, k, k + 1, 40, 1000])
@@ -191,18 +208,23 @@ def new_window(h, parent=None, rect=None, flags=None):
     h.parent[id_] = parent; h.rect[id_] = rect; h.n += 1
     if C02 and rng.random() < 0.85:
         emit("beh %d %s" % (id_, adversarial_prog(h, id_)))
+    elif not C02 and rng.random() < 0.15:
+        # well-behaved, but the handler also exposes: that damage is for the next flush
+        emit("beh %d P %s" % (id_, " ".join(expose_instr(h, id_) for _ in range(rng.randint(1, 2)))))
     return id_
 
 
 def history(h_index, big):
     h = Hist()
     tl = rng.choice([4, 6, 8, 8, 10, 12]); tc = rng.choice([8, 10, 16, 16, 24, 30])
-    mode = rng.choice(["a", "a", "a", "p", "r"])
+    mode = rng.choice(["a", "a", "a", "p", "r", "m"])     # m: the library's own mock terminal
     stats["scroll_modes"][mode] = stats["scroll_modes"].get(mode, 0) + 1
     emit("new %s %d %d %s %s" % (a.prop, tl, tc, mode, pen_tok(0, null_ok=False)))
     h.parent[0] = None; h.rect[0] = [0, 0, tl, tc]; h.n = 1
     if C02 and rng.random() < 0.6:
         emit("beh 0 %s" % adversarial_prog(h, 0))
+    elif not C02 and rng.random() < 0.1:
+        emit("beh 0 P %s" % expose_instr(h, 0))
     nwin = rng.choice([0, 1, 2, 3, 3, 4, 5, 7])
     for _ in range(nwin):
         new_window(h)
@@ -287,14 +309,14 @@ def history(h_index, big):
             sub = h.descendants(w)
             emit("close %d" % w)
             h.dead.update(sub)
-        elif x < 0.96:
+        elif x < 0.96 and mode != "m":
             nl = max(1, tl + rng.choice([-3, -2, -1, 0, 1, 2, 3])); nc = max(1, tc + rng.choice([-7, -3, -1, 0, 1, 2, 5]))
             if C02 and "root_shrink" in UNFIXED and (nl < tl or nc < tc):
                 emit("flush"); stats["flushes"] += 1; h.pending.clear()    # no damage pending across a shrink (known finding)
             emit("resize %d %d" % (nl, nc))
             tl, tc = nl, nc
             h.rect[0] = [0, 0, tl, tc]
-        elif x < 0.98:
+        elif x < 0.98 and mode != "m":
             emit("scrollmode %s" % rng.choice(["a", "p", "r"]))
         elif C02 and w is not None:
             emit("beh %d %s" % (w, adversarial_prog(h, w)))
